@@ -120,6 +120,10 @@ def check(repo: Repo) -> Result:
     from rules import c12
     from rules.common import share
 
+    from rules import c02 as _c02
+
+    r9 = res.rule("C14-R9", "a prefixed unit derived by the lookup is stored as NOT prefixable: otherwise a second prefix is accepted once the first has been used (kkm, Mkm), a reading no documented name has", floor=1)
+    share(res, r9, "C02", lambda t_: _c02.prefix_composition(repo, t_), ["C02-R2"], want=lambda k: k == "not-prefixable")
     r8 = res.rule("C14-R8", "after a registry edit every spelling of the edited unit (alias, word-prefixed form) is re-read from the table: the whole unit-string cache is cleared, not only the keys that contain the symbol's text", floor=3)
     share(res, r8, "C12", lambda t_: c12.invalidation(repo, t_), ["C12-R2"], want=lambda k: k.endswith(":unit-cache"), min_keys=3)
 
@@ -425,6 +429,40 @@ def filing(repo, res):
     collect(fn.body, {}, 0, None)
     if len(sites) < 6:
         raise AnalysisError(f"{fn.where()}: only {len(sites)} filing sites found")
+    # which spellings exist is the documented naming scheme (ASSUMPTIONS): the conditions under which a spelling is filed
+    # may only be the scheme's own - table membership / prefixable flag, short-alias and long-lower-case tests, "not
+    # listed yet" - never a further property of the spelling (isalpha, isidentifier ...), which would silently drop
+    # documented names such as kilowatt_hour
+    from engine.flow import enum_paths as _ep2, path_facts as _pf2
+    import re as _re2
+
+    ALLOWED = [
+        r"^entry\[4\]$", r" in default_unit_name_alternatives$", r"^len\(\w+\) (<|>|>=|<=) \d$", r"^len\(\w+\) > 3 and ", r"\.title\(\) (!=|==) \w+$", r"\.title\(\) in names\[", r"^\w+ in seen$", r"\.islower\(\)$",
+        r"^all\(\(?len\(\w+\) > 3 for \w+ in \w+\.split\('_'\)\)?\)$", r"^\w+ in \(?\[?'u', 'μ', 'µ'\]?\)?$", r"^\w+\[0\] in \(?\[?'u', 'μ'\]?\)?$", r"^key in \w+$", r"^\w+ in \('u', 'μ', 'µ'\)$",
+    ]
+    odd = set()
+    for p_ in _ep2(fn.body):
+        files_here = any(ev[0] == "stmt" and any(isinstance(c, ast.Call) and isinstance(c.func, ast.Name) and c.func.id in nested for c in ast.walk(ev[1])) for ev in p_)
+        skips = p_[-1][0] in ("continue",)
+        if not (files_here or skips):
+            continue
+        for t_, tr_, n_ in _pf2(p_):
+            atoms = []
+
+            def split(e):
+                if isinstance(e, ast.BoolOp):
+                    for v_ in e.values:
+                        split(v_)
+                elif isinstance(e, ast.UnaryOp) and isinstance(e.op, ast.Not):
+                    split(e.operand)
+                else:
+                    atoms.append(norm(e))
+
+            split(n_)
+            for at in atoms:
+                if not any(_re2.search(rx, at) for rx in ALLOWED):
+                    odd.add(at)
+    res.check(not odd, "filing-conditions", fn.where(), "a spelling is filed (or skipped) under a condition that is not part of the documented naming scheme: documented names are silently dropped from the tables, the namespaces and the parser's alias map", "only: prefixable flag, listed in the alias table, short-alias / long-lower-case tests, not yet listed", sorted(odd)[:4], rid=r6)
     for site, args in sites:
         lst, canon = args[i_list], args[i_canon]
         ok = isinstance(lst, ast.Subscript) and norm(lst.value) == names_v
